@@ -24,6 +24,16 @@ knows because it made the binding -- it never parses the text it wrote.  Five ki
   three-level    annotations on coarse-fragment nodes are still on those nodes when they are the coarse graph
                  returned by the second resolve step.
 
+Added families (same five kinds, same checks):
+  * ONE-ATOM fragments (SINGLE_ATOM_TEMPLATES: `[$][N..][$]`, `[N..][$][$]`, `[$][O..][$]`, `[$][N..]`, `[$][N..][$][$]`,
+    `[$][NH..][$]`, `[O-..][$]`, and the lone explicit hydrogen `[$][H;0.125]`): the reader of atomistic fragments takes a
+    path of its own for a fragment that is a single atom; weight, chirality and free keys must reach every copy as for
+    any other atom.
+  * free keys with UPPER-CASE letters (FREE_UC: `pKa`, `resName`, `Tg`, mixed with the lower-case `mass`) at every level
+    (base-graph node read / on the returned coarse graph, coarse-fragment node, coarse-fragment node one level on,
+    atomistic-fragment atom, explicit hydrogen): "other keys are kept verbatim", so `pKa` must come back as `pKa`; the
+    case-folded spellings (`pka`, `PKA`, ...) count as stray keys.  No key is a case variant of a reserved key.
+
 What the statement demands at the coarse-fragment level -- scope decisions:
   * The docs (Annotations, table "Reserved Annotation Symbols") say the coarse dialect (q -> charge, w -> weight)
     is "used for the coarse resolution fragments / graphs".  So `[#X;q=1]` inside a coarse fragment must give
@@ -74,13 +84,17 @@ BOUNDS = {
               'free_keys': FREE, 'free_key_subsets': 'all subsets of size <= 2', 'keyword_orders': 'all permutations',
               'positional_forms': 'q; q,w; 0,w (base) / w; w,x; 1,x (atomistic)',
               'base_node_positions': 4, 'fragment_reuse_counts': [1, 2, 3], 'fragment_atom_placements': 7,
-              'base_resolve_nodes': '1..4 nodes of the same fragment with different annotations'},
+              'base_resolve_nodes': '1..4 nodes of the same fragment with different annotations',
+              'one_atom_fragments': '7 templates + 2 lone-hydrogen templates, every second written form',
+              'upper_case_free_keys': 'FREE_UC subsets of size <= 2 with at least one upper-case key; every 2nd..5th written form per level'},
     'thorough': {'charge_spellings': [c for c, _ in CHARGES], 'weight_spellings': [w for w, _ in WEIGHTS],
                  'free_keys': FREE, 'free_key_subsets': 'all subsets of size <= 3', 'keyword_orders': 'all permutations',
                  'positional_forms': 'q; q,w; 0,w (base) / w; w,x; 1,x (atomistic)',
                  'base_node_positions': 4, 'fragment_reuse_counts': [1, 2, 3, 4], 'fragment_atom_placements': 7,
                  'base_resolve_nodes': '1..4 nodes of the same fragment with different annotations',
-                 'random_mixed_cases': 20000},
+                 'random_mixed_cases': 20000,
+                 'one_atom_fragments': '7 templates + 2 lone-hydrogen templates, every written form',
+                 'upper_case_free_keys': 'FREE_UC subsets of size <= 3 (coarse: 2) with at least one upper-case key, every written form; 5000 random mixed cases'},
 }
 EXHAUSTIVE = {'quick': False, 'thorough': False}
 RULE = ('bindings = (charge spelling or none) x (weight spelling or none) x (subset of free keys) for base-graph nodes, '
@@ -88,7 +102,8 @@ RULE = ('bindings = (charge spelling or none) x (weight spelling or none) x (sub
         'order of its keyword entries and with every documented positional prefix; the annotated node is placed at several '
         'positions of the base graph / the fragment text; fragments are used 1..3(4) times.  A case is non-trivial when the '
         'annotation has at least two entries or a positional value (so that order / binding matters) or the fragment is '
-        'used more than once; distinct = distinct complete string (+ resolver options).')
+        'used more than once; distinct = distinct complete string (+ resolver options).  The same enumeration is repeated with '
+        'one-atom fragment templates and with the free-key pool FREE_UC (subsets with at least one upper-case key).')
 ASSUMPTIONS = [
     'the tables CHARGES / WEIGHTS pair each spelling with the number it denotes (written by hand)',
     'an atom of a fragment copy can be identified by fragid (base-graph node key) + element (unique in the fragment) or atomname',
